@@ -24,6 +24,10 @@ func init() {
 		z := in.zero(fr.fn.Signature.Results().At(0).Type()).(Struct)
 		return mkTime(in, z, ns)
 	})
+	reg("time.Date", func(in *Interp, fr *frame, a []Value) Value {
+		// calendar dates are outside the linear time model; only used for constant timestamps
+		return in.zero(fr.fn.Signature.Results().At(0).Type())
+	})
 	reg("(time.Time).Add", func(in *Interp, fr *frame, a []Value) Value {
 		return mkTime(in, a[0].(Struct), in.ts.BinBV(OpBvAdd, timeNs(in, a[0]), a[1].(*Term)))
 	})
